@@ -12,7 +12,10 @@ use std::path::{Path, PathBuf};
 use std::sync::atomic::{AtomicUsize, Ordering};
 use std::time::Instant;
 
-pub const VERIF_ROOT: &str = "/verif";
+/// Root of the verification tree (overridable for mutation runs on scratch copies).
+pub fn verif_root() -> PathBuf {
+    PathBuf::from(std::env::var("VERIF_ROOT").unwrap_or_else(|_| "/verif".to_string()))
+}
 
 #[derive(Clone, Copy, PartialEq, Eq, Debug)]
 pub enum Tier {
@@ -66,7 +69,7 @@ struct Finding {
 }
 
 fn load_findings(prop: &str) -> Vec<Finding> {
-    let p = Path::new(VERIF_ROOT).join("findings/known_findings.json");
+    let p = verif_root().join("findings/known_findings.json");
     let Ok(txt) = std::fs::read_to_string(&p) else { return vec![] };
     let v: Value = match serde_json::from_str(&txt) {
         Ok(v) => v,
@@ -260,7 +263,7 @@ impl Report {
             }
         }
         let mut replay_paths = vec![];
-        let dir = Path::new(VERIF_ROOT).join("replays").join(&self.property);
+        let dir = verif_root().join("replays").join(&self.property);
         if !unlisted.is_empty() {
             let _ = std::fs::create_dir_all(&dir);
         }
@@ -312,7 +315,7 @@ impl Report {
             "violations": nviol,
             "known_finding_cases": known_total,
         });
-        let evdir = Path::new(VERIF_ROOT).join("evidence");
+        let evdir = verif_root().join("evidence");
         let _ = std::fs::create_dir_all(&evdir);
         let evpath = evdir.join(format!("{}.json", self.property));
         if let Err(e) = std::fs::write(&evpath, serde_json::to_string_pretty(&ev).unwrap()) {
@@ -435,7 +438,7 @@ pub fn quiet_panics() {
 }
 
 pub fn scratch_dir(tag: &str) -> PathBuf {
-    let p = Path::new(VERIF_ROOT).join("target/scratch").join(format!("{}-{}", tag, std::process::id()));
+    let p = verif_root().join("target/scratch").join(format!("{}-{}", tag, std::process::id()));
     let _ = std::fs::remove_dir_all(&p);
     std::fs::create_dir_all(&p).unwrap_or_else(|e| machinery_failure(&format!("scratch dir: {e}")));
     p
